@@ -4,6 +4,8 @@ import (
 	"context"
 	"fmt"
 	"os"
+	"path/filepath"
+	"sync/atomic"
 	"strings"
 	"testing"
 	"testing/synctest"
@@ -18,6 +20,8 @@ import (
 // Level 1 (event level): the real SyncLoop runs in a synctest bubble; the harness pushes the header and data events
 // of a chain produced by a real aggregator into the real input channels one at a time, in EVERY order, with one
 // duplicated event anywhere and one clean stop/restart (SaveCache -> NewManager -> LoadCache) at any idle point.
+
+var rootSeq atomic.Int64
 
 type outcome struct {
 	fail   *world.Fail
@@ -36,12 +40,14 @@ func body(t *testing.T, c *explore.Ctx, pc *world.ProducerChain) (out outcome) {
 }
 
 func bubble(c *explore.Ctx, pc *world.ProducerChain) (out outcome) {
-	root, err := os.MkdirTemp("", "c02-root")
-	if err != nil {
-		out.fail = &world.Fail{Clause: "engine", Msg: err.Error()}
-		return
-	}
-	defer os.RemoveAll(root)
+	// a unique cache directory; it is only created (by SaveCache) if a clean restart is explored
+	root := filepath.Join(os.TempDir(), fmt.Sprintf("c02-root-%d-%d", os.Getpid(), rootSeq.Add(1)))
+	restarted := false
+	defer func() {
+		if restarted {
+			os.RemoveAll(root)
+		}
+	}()
 	env := world.NewEnv()
 	p := fullParams(pc, root)
 	n, err := world.StartNode(p, env, nil, world.NodeOpts{})
@@ -82,7 +88,6 @@ func bubble(c *explore.Ctx, pc *world.ProducerChain) (out outcome) {
 		height = h
 		return f
 	}
-	restarted := false
 	for len(remaining) > 0 {
 		k := c.Choose("order", len(remaining))
 		e := remaining[k]
